@@ -135,6 +135,30 @@ Theorem C02_connection : forall cfg first rest,
 Proof. exact connection. Qed.
 Print Assumptions C02_connection.
 
+(* Data arriving from the upstream server (HttpProxyPlugin.read_from_descriptors: relayed to the client, fed to the
+   bookkeeping parsers self.response / self.pipeline_response via handle_pipeline_response) never touches the
+   forwarding state (request, plugin, upstream connection and its queue, pipeline_request): however such data is
+   interleaved with the pieces received from the client — e.g. the response to request k completing while request
+   k+1 or k+2 is only partly received — the forwarding side goes through exactly the states of the run without any
+   upstream data. *)
+Theorem C02_upstream_data_irrelevant :
+  (forall cs raw, c_fwd (read_from_upstream cs raw) = c_fwd cs) /\
+  (forall cfg ok evs cs,
+     forwarding_outcome (run_events cfg ok cs evs) = feed cfg ok (c_fwd cs) (client_pieces evs)).
+Proof. exact (conj read_from_upstream_fwd interleaving_irrelevant). Qed.
+Print Assumptions C02_upstream_data_irrelevant.
+
+(* so C02_connection holds for every interleaving of the client's pieces with data from the upstream server *)
+Theorem C02_connection_interleaved : forall cfg first rest evs,
+  wf_cfg cfg = true -> auth_passes cfg (fst first) = true ->
+  Forall request_pieces (first :: rest) ->
+  Forall (fun rs => is_upgrade_request (fst rs) = false) (removelast (first :: rest)) ->
+  client_pieces evs = concat (map snd (first :: rest)) ->
+  exists cs ws, run_events cfg true init_cstate evs = CDone false cs /\ upstream_queue (c_fwd cs) = ws /\
+                Forall2 (forwarded_as cfg) ws (first :: rest).
+Proof. exact connection_interleaved. Qed.
+Print Assumptions C02_connection_interleaved.
+
 (* The remainder loop of on_client_data (`while remainder is not None`) is modelled with fuel
    1 + |carried buffer| + |data|.  No result depends on that amount: whatever the loop returns other than
    OutOfFuel, it returns with any larger fuel.  (Theorems 2-4 exhibit the results explicitly: one round, no
